@@ -80,6 +80,19 @@ func damager(g *rig, b *Beh) func([]byte, Step) [][]byte {
 			}
 			return [][]byte{setSize(f[:n2])}
 		}
+		if st.In == "inject" {
+			// a frame of the adversary's own making; f is nil
+			row := &GRow{Side: b.Side, Mode: b.Mode, Policy: b.Policy}
+			switch st.Dmg {
+			case "opn.none":
+				jb := make([]byte, 80)
+				rnd.Read(jb)
+				return [][]byte{rawFrame("OPN", 'F', cat(le32(chanID), uaBytes([]byte(ua.SecurityPolicyURINone)), uaBytes(nil), uaBytes(nil), le32(1), le32(1), jb))}
+			default:
+				row.Class = st.Dmg
+				return garbageFrames(row, chanID, tokID, 1, rnd)[:1]
+			}
+		}
 		if b.Sweep != "" {
 			return sweepDamage(f, b, st, l)
 		}
@@ -155,7 +168,11 @@ func damager(g *rig, b *Beh) func([]byte, Step) [][]byte {
 			return [][]byte{setSize(append(f, ext...))}
 		case "forge.nokeys":
 			// a chunk of the same shape made without any key: header kept, everything after it invented
-			for i := 16; i < n; i++ {
+			from := 16
+			if l.mode == "Sign" {
+				from = 24 // the sequence header is plain text: keep a plausible one
+			}
+			for i := from; i < n; i++ {
 				f[i] = byte(rnd.Intn(256))
 			}
 			return [][]byte{f}
